@@ -21,9 +21,10 @@ from typing import Dict, List
 from ..engine import Analysis, describe_path
 from ..frontend import AnalysisError, unparse
 from ..report import RuleResult
-from ..values import BoundV, Const, EnumMemV, ExtV, FuncV, Obj, Sym, TupleV, Unknown, V
+from ..values import BoundV, Const, EnumMemV, ExtObj, ExtV, FuncV, Obj, Sym, TupleV, Unknown, V
 from . import common
 from .c02 import layout_agreement
+from . import c03
 
 PROP = "C01"
 
@@ -84,6 +85,26 @@ def summarise(analysis, it, outs, root, ctxname, check_r3=False, gw=None) -> dic
     hdr = []
     validate_args = set()
     n_effects = 0
+    # module-level memo tables: a global container that only ever receives validator objects is a cache of
+    # schemas, not message state; whether its key determines the schema is lemma C03-R4m of this run
+    stored: Dict[tuple, set] = {}
+    for _k, st, _v in outs:
+        for e in st.events:
+            if e.kind == "setitem" and isinstance(e.recv, V) and e.recv.key()[0] == "global" and len(e.args) == 2:
+                val = e.args[1]
+                stored.setdefault(e.recv.key(), set()).add(val.cls if isinstance(val, ExtObj) else "?")
+    memo = {g for g, classes in stored.items() if all(c.startswith("vol.") for c in classes)}
+
+    def memo_event(e) -> bool:
+        if not memo or not isinstance(e.recv, V):
+            return False
+        if e.kind == "setitem":
+            return e.recv.key() in memo
+        if e.kind == "call" and e.name == "?callable":
+            k = e.recv.key()
+            return len(k) >= 2 and k[0] in ("get", "item") and k[1] in memo
+        return False
+
     for out in outs:
         kind, st, v = out
         if kind == "raise":
@@ -109,7 +130,7 @@ def summarise(analysis, it, outs, root, ctxname, check_r3=False, gw=None) -> dic
                     else:
                         desc = repr(f.key())[:80]
                 jobs.append({"ok": ok, "desc": desc, "where": f"{e.func}:{e.line}", "func": e.func})
-            if check_r3 and is_effect(e):
+            if check_r3 and is_effect(e) and not memo_event(e):
                 n_effects += 1
                 if not any(f[0] == "validated" for f in (e.facts or ())):
                     r3.append({"key": f"{e.func} / {e.kind} {e.name}", "where": f"{e.func}:{e.line}", "detail": f"effect `{e.kind} {e.name}` reachable before the line was validated", "witness": describe_path(out)})
@@ -229,6 +250,19 @@ def run(analysis: Analysis, tier: str) -> RuleResult:
     problems = common.check_seeds(analysis)
     if problems:
         raise AnalysisError("type seeds disagree with the constructors: " + "; ".join(problems[:4]))
+
+    # lemma: the validators Message.validate applies are the reviewed, total ones (C03-R3/R4/R5 of this run);
+    # the raise model of a schema call (vol.Invalid only) and the validated fact rest on it
+    class _Lemma:
+        extra = res.extra
+
+        @staticmethod
+        def add(rule, *a, **kw):
+            res.add("C01-L:" + rule, *a, **kw)
+
+    c03.conformance(analysis, _Lemma)
+    c03.header_rules(analysis, _Lemma)
+    c03.validators_total(analysis, _Lemma)
 
     common.check_no_key_removal(analysis, res, "C01-INV")
     common.check_key_identity(analysis, res, "C01-INV")
